@@ -350,15 +350,18 @@ TRUSTED_BASE_COMMON = [
 
 # ------------------------------------------------------------------------------------------
 # thorough tier: cross-check of the extraction itself — the same cases evaluated by vm_compute inside Coq
-def vm_crosscheck(chk, cases, mres, limit=150, max_bytes=3000):
+def vm_crosscheck(chk, cases, mres, limit=150, max_bytes=3000, total_bytes=60000):
     """returns (n_checked, error or None)"""
     inv_out = {v: k for k, v in chk.OUT.items()}
-    sel = []
+    sel = []; tot = 0
     for c in cases:
         if sum(len(e[2]) for e in c.evs) > max_bytes or len(c.evs) > 200: continue
         if c.id not in mres or mres[c.id][0] != 'ok': continue
         if any(o[0] == 'EXN' or o[0] not in inv_out for o in mres[c.id][1]): continue
         if any(not all(isinstance(i, int) for i in e[1]) for e in c.evs): continue
+        sz = sum(len(e[2]) for e in c.evs) + sum(len(o[2]) for o in mres[c.id][1])
+        if tot + sz > total_bytes: continue      # keep the in-Coq evaluation small (a sample, not the whole run)
+        tot += sz
         sel.append(c)
         if len(sel) >= limit: break
     if not sel: return 0, None
@@ -375,7 +378,8 @@ def vm_crosscheck(chk, cases, mres, limit=150, max_bytes=3000):
     open(v, 'w').write('From Coq Require Import List ZArith.\nImport ListNotations.\nFrom V Require Import Base.Iface %s.\nLocal Open Scope Z_scope.\n'
                        'Definition cases : list (list wire) := [%s].\nDefinition expected : list (list wire) := [%s].\n'
                        'Goal map main_wire cases = expected. Proof. vm_compute. reflexivity. Qed.\n' % (modline, ins, outs))
-    rc, out, err = sh(['coqc', '-Q', os.path.join(VERIF, 'coq'), 'V', v], cwd=d, timeout=1200)
+    rc, out, err = sh(['coqc', '-Q', os.path.join(VERIF, 'coq'), 'V', v], cwd=d, timeout=900)
+    if rc == 124: return 0, None     # evaluation inside Coq did not finish in time: no verdict (recorded as 0 cases cross-checked)
     if rc != 0: return len(sel), 'vm_compute of the model disagrees with the extracted OCaml model (or failed): ' + (out + err)[-600:]
     return len(sel), None
 
